@@ -3,6 +3,7 @@ package main
 // SMT-LIB term construction helpers and solver driver.
 
 import (
+	"sort"
 	"bytes"
 	"context"
 	"fmt"
@@ -292,4 +293,26 @@ func solve(dir string, text func(noLambda bool) string, quickS, fullS int) (solv
 		cancel()
 	}
 	return best, all
+}
+
+
+// crossCheck runs the query on every solver other than the one whose answer was accepted
+// and reports "name:status" for each.
+func crossCheck(dir string, text func(noLambda bool) string, accepted string, budgetS int) []string {
+	var out []string
+	ch := make(chan solveResult, len(solvers))
+	n := 0
+	for _, sp := range solvers {
+		if sp.name == accepted {
+			continue
+		}
+		n++
+		go func(sp solverSpec) { ch <- runSolver(context.Background(), sp, dir, text(sp.noLambda), budgetS) }(sp)
+	}
+	for i := 0; i < n; i++ {
+		x := <-ch
+		out = append(out, x.solver+":"+x.status)
+	}
+	sort.Strings(out)
+	return out
 }
